@@ -2,9 +2,12 @@ SPECIFICATION TraceSpec
 CONSTANTS NCalls <- TraceMaxCalls
  VarTrees <- AnyTrees
  HeaderModes <- AnyHdr
+ Reuse <- Bools
+ Deviations <- NoDev
 INVARIANT NoInterference
 INVARIANT OwnResponse
 INVARIANT CallerStateUntouched
+INVARIANT CallerVarsUntouched
 CONSTRAINT Reached
 POSTCONDITION Accepted
 CHECK_DEADLOCK FALSE
